@@ -51,7 +51,12 @@ def apply_canary(can, repo):
         return None, "anchor text not found"
     if cnt > 1 and not can.get("first"):
         return None, "anchor text ambiguous (%d matches)" % cnt
-    return src.replace(can["find"], can["replace"], 1), None
+    new = src.replace(can["find"], can["replace"], 1)
+    for step in can.get("then", []):  # further edits of the same file, applied in order
+        if new.count(step["find"]) != 1:
+            return None, "follow-up anchor text not found exactly once"
+        new = new.replace(step["find"], step["replace"], 1)
+    return new, None
 
 
 def run_canary(prop, can, repo):
